@@ -146,10 +146,7 @@ def c07_header_agreement(ctx, v):
         if o.kind in ("unsupported", "unwound", "path-limit"):
             return v.undecided("create: %s %s" % (o.kind, o.info))
         if o.kind == "panic":
-            r, m = ex.model_for(o.pc)
-            v.queries += 1
-            if r == z3.sat:
-                v.fail("Block::create panics for consensus values within the stated ranges: %s" % o.info)
+            L.report_panic(v, ex, o, "Block::create panics for consensus values within the stated ranges: %s" % o.info)
             continue
         if o.kind != "stopped":
             continue
